@@ -137,6 +137,8 @@ func (r result) all() string { return r.stdout + "\n" + r.stderr }
 
 // every child runs under an address-space limit: a program that asks for gigabytes (LPAD(s, 2147483647, 'x'))
 // must not take the machine down; running out of memory under the limit is counted, not reported as a law
+const hangBound = 20 * time.Second
+
 const limitSh = "ulimit -v 3000000; "
 
 var (
@@ -387,6 +389,10 @@ func judge(j *job, r result) (laws []string, notes []string) {
 	if r.timedOut {
 		if j.BlockOK {
 			return nil, []string{"observed:blocked_on_fifo_without_writer(OS semantics, not a law)"}
+		}
+		if hugeRequest(j) {
+			// the job names a large quantity (iterations, rows, widths) or feeds much data: long work is what it asks for
+			return nil, []string{"observed:timeout_of_a_job_that_names_a_large_quantity(not a law)", "observed_timeout:" + trunc(shJoin(j.argv()), 140)}
 		}
 		prog := j.program()
 		switch {
@@ -991,9 +997,12 @@ func run(seed int64, n int, dir string, _ []string) {
 			}
 			isHang := strings.HasPrefix(l, "hang:")
 			if isHang {
-				// first make sure it is not merely slow under the load of the parallel phase: once more, with the full bound
-				if r := execJob(j); !r.timedOut {
-					reports[li].skip = "observed:slow_under_load_but_finished_on_a_second_run(not a law):" + strings.TrimPrefix(l, "hang:")
+				// first make sure it is not merely slow (under the load of the parallel phase or by the work it asks
+				// for): alone, with a deadline 4 times the bound
+				alone := j.clone()
+				alone.Timeout = 4 * hangBound
+				if r := execJob(alone); !r.timedOut {
+					reports[li].skip = "observed:slow_but_finished_alone_within_4x_the_bound(not a law):" + strings.TrimPrefix(l, "hang:")
 					return
 				}
 				// a candidate that still runs after 4 s counts as still hanging (a shrunk result is confirmed below)
@@ -1004,12 +1013,13 @@ func run(seed int64, n int, dir string, _ []string) {
 			m := shrink(j, l, tries, budget)
 			var r result
 			if isHang {
-				m.Timeout = 0
+				m.Timeout = 4 * hangBound
 				if strings.Join(m.argv(), "\x00") == strings.Join(orig.argv(), "\x00") {
-					r = firstOf[l].r // nothing was removed: already confirmed with the full bound
+					r = firstOf[l].r // nothing was removed: already confirmed alone with 4 times the bound
 				} else if r = execJob(m); !r.timedOut {
 					m, r = orig, firstOf[l].r
 				}
+				m.Timeout = 0
 			} else {
 				r = execJob(m)
 				for t := 0; t < tries*2 && !contains(classify(m, r), l); t++ {
